@@ -149,3 +149,176 @@ Theorem C14_expansion_behaves_like_body_exact : forall cfg prog inl_sem ext_call
                              (map (rename_sline (suffix_of n)) (sb ++ [SLbl ".endof"%string])) post
                              (sb ++ [SLbl ".endof"%string]).
 Proof. exact push_code_run_eq. Qed.
+
+From CC Require Import M6502.Isa Asm.Operand Model.OptSem Proofs.GenCmp16Facts Model.GenCall
+  Proofs.GenCallFacts Model.InlineCall Proofs.InlineCallFacts.
+Local Open Scope Z_scope.
+
+(** * the other side: the OUT-OF-LINE spelling ([JSR f], the function in the program table)
+    does what the expansion does.  Model/InlineCall.v: [ret_of_endof body] is the inline body with
+    every unprotected [JMP .endof] ([return;] of an inline function) replaced by [RTS];
+    [out_of_line body] adds the RTS line of the harness.  Proofs in Proofs/InlineCallFacts.v, on the
+    call rule of Proofs/GenCallFacts.v ([goes]: a run inside a function under any call stack;
+    [enter d s]: the state the [JSR] enters the callee with, the two markers pushed).
+    [scallee sb] / [sinline sb]: the assembled lines of the out-of-line form / of the inline form
+    followed by its [.endof] label. *)
+Theorem C14_out_of_line_assembles :
+  forall (body : code) (sb : list sline),
+       slines_of body = Some sb -> slines_of (out_of_line body) = Some (scallee sb).
+Proof. exact slines_of_out_of_line. Qed.
+
+(** one instruction that uses neither the hardware stack nor an operand that can denote a cell of
+    the stack page does the same in two states equal up to S and two cells of page 1 *)
+Theorem C14_exec_up_to_markers :
+  forall cfg : config,
+       ports cfg = [] ->
+       forall m1 m2 : Z,
+       256 <= m1 < 512 ->
+       256 <= m2 < 512 ->
+       forall (m : mnem) (o : operand) (s sc : mstate),
+       mrel m1 m2 s sc ->
+       stack_free m = true ->
+       op_safe cfg m o -> xres_rel m1 m2 s sc (exec cfg m o s) (exec cfg m o sc).
+Proof. exact exec_mrel. Qed.
+
+(** the out-of-line form, entered by a [JSR] (any call stack, any depth), reaches one of its RTS
+    lines whenever the inline form reaches its end, in a state with the same A, X, Y, flags and
+    memory except the two marker cells ([crel]); S as entered.  [body_ok]: the body uses neither
+    the stack nor stack-page operands nor inline assembly, does not define [.endof], and refers to
+    it by unprotected [JMP]s only *)
+Theorem C14_ret_of_endof_runs :
+  forall (cfg : config) (prog : sprogram) (body : code) (sb : list sline)
+         (f : string) (stack : list frame) (d : Z) (s : mstate) (n : nat)
+         (s' : mstate),
+       ports cfg = [] ->
+       slines_of body = Some sb ->
+       body_ok cfg sb ->
+       0 <= rS s < 256 ->
+       stepn cfg (sinline sb) n 0 s = Some (S (Datatypes.length sb), s') ->
+       slines_of (out_of_line body) = Some (scallee sb) /\
+       (exists (pr : nat) (sc' : mstate),
+          goes cfg prog f (scallee sb) stack 0 (enter d s) pr sc' /\
+          is_rts (scallee sb) pr /\
+          crel (256 + rS s) (256 + byte (rS s - 1)) (byte d) (byte (255 - d))
+            (rS s) (rS (enter d s)) s' sc').
+Proof. exact ret_of_endof_runs. Qed.
+
+(** conversely *)
+Theorem C14_ret_of_endof_runs_conv :
+  forall (cfg : config) (body : code) (sb : list sline) (d : Z) (s : mstate)
+         (n pr : nat) (sc' : mstate),
+       ports cfg = [] ->
+       slines_of body = Some sb ->
+       body_ok cfg sb ->
+       0 <= rS s < 256 ->
+       stepn cfg (scallee sb) n 0 (enter d s) = Some (pr, sc') ->
+       is_rts (scallee sb) pr ->
+       exists (n' : nat) (s' : mstate),
+         stepn cfg (sinline sb) n' 0 s = Some (S (Datatypes.length sb), s') /\
+         crel (256 + rS s) (256 + byte (rS s - 1)) (byte d) (byte (255 - d))
+           (rS s) (rS (enter d s)) s' sc'.
+Proof. exact ret_of_endof_runs_conv. Qed.
+
+(** the caller spelled with the call goes from the [JSR] to the next line, the caller spelled
+    with the expansion from the first line of the expansion to the line after [.endofinlineN], in
+    states equal but for the two stack-page cells where the [JSR] left its markers
+    ([eq_but_markers]), whatever follows and whatever the call stack *)
+Theorem C14_inline_equals_call :
+  forall (cfg : config) (prog : sprogram)
+         (inl_sem ext_call : string -> mstate -> option mstate) (dst body : code)
+         (n : N) (sd sb : list sline) (f fname : string) (stack : list frame)
+         (post1 post2 : list sline) (p : bool) (raw : string) (s : mstate)
+         (k : nat) (s2 : mstate),
+       ports cfg = [] ->
+       slines_of dst = Some sd ->
+       slines_of body = Some sb ->
+       jump_ops_nonempty body ->
+       (forall t : string, In t (local_targets body) -> In t (all_labels body) \/ t = ".endof") ->
+       (forall l : string, In l (all_labels dst) -> forall l0 : string, l <> suffix_of n l0) ->
+       body_ok cfg sb ->
+       find_func f prog = Some (scallee sb) ->
+       0 <= rS s < 256 ->
+       stepn cfg (sinline sb) k 0 s = Some (S (Datatypes.length sb), s2) ->
+       let blk' := map (rename_sline (suffix_of n)) (sinline sb) in
+       slines_of (push_code dst body n) = Some (sd ++ blk') /\
+       slines_of (out_of_line body) = Some (scallee sb) /\
+       (exists s1 : mstate,
+          goes cfg prog fname (sd ++ [SIns JSR (OLbl f) p raw] ++ post1) stack
+            (Datatypes.length sd) s (S (Datatypes.length sd)) s1 /\ eq_but_markers s1 s2 (rS s)) /\
+       (forall (fuel : nat) (tr : list event) (cy : N),
+        exists (tr' : list event) (cy' : N),
+          run cfg prog inl_sem ext_call (k + S fuel) fname (sd ++ blk' ++ post2)
+            (Datatypes.length sd) stack s tr cy =
+          run cfg prog inl_sem ext_call (S fuel) fname (sd ++ blk' ++ post2)
+            (Datatypes.length sd + Datatypes.length blk') stack s2 tr' cy').
+Proof. exact inline_equals_call. Qed.
+
+(** conversely: if the callee reaches an RTS, the inline form ends, and the same holds *)
+Theorem C14_inline_equals_call_conv :
+  forall (cfg : config) (prog : sprogram)
+         (inl_sem ext_call : string -> mstate -> option mstate) (dst body : code)
+         (n : N) (sd sb : list sline) (f fname : string) (stack : list frame)
+         (post1 post2 : list sline) (p : bool) (raw : string) (s : mstate)
+         (j pr : nat) (sc' : mstate),
+       ports cfg = [] ->
+       slines_of dst = Some sd ->
+       slines_of body = Some sb ->
+       jump_ops_nonempty body ->
+       (forall t : string, In t (local_targets body) -> In t (all_labels body) \/ t = ".endof") ->
+       (forall l : string, In l (all_labels dst) -> forall l0 : string, l <> suffix_of n l0) ->
+       body_ok cfg sb ->
+       find_func f prog = Some (scallee sb) ->
+       0 <= rS s < 256 ->
+       stepn cfg (scallee sb) j 0 (enter (Z.of_nat (Datatypes.length stack) + 1) s) =
+       Some (pr, sc') ->
+       is_rts (scallee sb) pr ->
+       let blk' := map (rename_sline (suffix_of n)) (sinline sb) in
+       exists (k : nat) (s2 : mstate),
+         stepn cfg (sinline sb) k 0 s = Some (S (Datatypes.length sb), s2) /\
+         (exists s1 : mstate,
+            goes cfg prog fname (sd ++ [SIns JSR (OLbl f) p raw] ++ post1) stack
+              (Datatypes.length sd) s (S (Datatypes.length sd)) s1 /\ eq_but_markers s1 s2 (rS s)) /\
+         (forall (fuel : nat) (tr : list event) (cy : N),
+          exists (tr' : list event) (cy' : N),
+            run cfg prog inl_sem ext_call (k + S fuel) fname (sd ++ blk' ++ post2)
+              (Datatypes.length sd) stack s tr cy =
+            run cfg prog inl_sem ext_call (S fuel) fname (sd ++ blk' ++ post2)
+              (Datatypes.length sd + Datatypes.length blk') stack s2 tr' cy').
+Proof. exact inline_equals_call_conv. Qed.
+
+(** the compiler's example [inline void f() { if (a) return; c = 1; }  void main() { f(); b = 2; }]
+    (Model/InlineCall.v: the exact -O0 output for both spellings) satisfies the hypotheses ... *)
+Theorem C14_example_body_ok :
+  body_ok cfg_calls ex_sb.
+Proof. exact ex_body_ok. Qed.
+
+Theorem C14_example_inline_equals_call :
+  forall (prog : sprogram) (inl_sem ext_call : string -> mstate -> option mstate)
+         (fname : string) (stack : list frame) (post1 post2 : list sline)
+         (s : mstate) (k : nat) (s2 : mstate),
+       find_func "f" prog = Some (scallee ex_sb) ->
+       0 <= rS s < 256 ->
+       stepn cfg_calls (sinline ex_sb) k 0 s = Some (S (Datatypes.length ex_sb), s2) ->
+       let blk' := map (rename_sline (suffix_of 1)) (sinline ex_sb) in
+       (exists s1 : mstate,
+          goes cfg_calls prog fname ([SIns JSR (OLbl "f") false "f"] ++ post1) stack 0 s 1 s1 /\
+          eq_but_markers s1 s2 (rS s)) /\
+       (forall (fuel : nat) (tr : list event) (cy : N),
+        exists (tr' : list event) (cy' : N),
+          run cfg_calls prog inl_sem ext_call (k + S fuel) fname (blk' ++ post2) 0 stack s tr cy =
+          run cfg_calls prog inl_sem ext_call (S fuel) fname (blk' ++ post2)
+            (Datatypes.length blk') stack s2 tr' cy').
+Proof. exact ex_inline_equals_call. Qed.
+
+(** ... and both spellings of the whole program, run from a = 0 and from a = 1: the same variables,
+    registers and S *)
+Theorem C14_example_runs_a0 :
+  run_ex ex_prog_call ex_main_call (st_calls 0 9) = Some (0, 2, 1, 2, 7, 2, 255) /\
+       run_ex [] ex_main_inline (st_calls 0 9) = Some (0, 2, 1, 2, 7, 2, 255).
+Proof. exact ex_both_spellings_a0. Qed.
+
+Theorem C14_example_runs_a1 :
+  run_ex ex_prog_call ex_main_call (st_calls 1 9) = Some (1, 2, 0, 2, 7, 2, 255) /\
+       run_ex [] ex_main_inline (st_calls 1 9) = Some (1, 2, 0, 2, 7, 2, 255).
+Proof. exact ex_both_spellings_a1. Qed.
+
